@@ -28,3 +28,18 @@ Proof.
   generalize (build_vars i cns fields). intros vs H. induction H as [|x y l1 l2 [j ->] _ IH]; intros Hin; [contradiction|].
   destruct Hin as [E|Hin]; [injection E as <- <-; reflexivity|apply IH; exact Hin].
 Qed.
+
+(* ---------------------------------------------------------------- explicit names and name generators *)
+(* XmlVarBuilder.build / build_class_meta: an explicit metadata name (field "name", Meta.name) is the
+   local name verbatim; only without one does the generator's rendering of the Python name apply. *)
+Theorem explicit_field_name_verbatim i P f x r :
+  fd_xml_name f = Some (x :: r) -> v_local_name (build_var i P f) = x :: r.
+Proof. intros H. unfold build_var. cbn [v_local_name]. rewrite H. reflexivity. Qed.
+
+Theorem derived_field_name_generated i P f :
+  fd_xml_name f = None -> v_local_name (build_var i P f) = derived_field_name f.
+Proof. intros H. unfold build_var. cbn [v_local_name]. rewrite H. reflexivity. Qed.
+
+Theorem explicit_class_name_verbatim cd x r :
+  cd_meta_name cd = Some (x :: r) -> meta_local_name cd = x :: r.
+Proof. intros H. unfold meta_local_name. rewrite H. reflexivity. Qed.
